@@ -12,20 +12,33 @@ theorem allColls_eq_all (p : Id → Bool) : ∀ l : List (String × List HV),
   | [] => by simp [allColls]
   | (n, d) :: r => by simp [allColls, allColls_eq_all p r]
 
-/-- `aggregate` starts in a world that satisfies the invariant (window from 0) -/
+/-- the window of the call starts where the copy of the pipeline ends -/
+def base (s : State) : Nat := (deepTmp s.pipe 0).2
+
+theorem dr_pipelineCopy : Dr.pipelineCopy = .deep := rfl
+
+/-- `aggregate` starts in a world that satisfies the invariant: the call's copy of the pipeline
+    was allocated first, the window of the working documents starts after it -/
 theorem world_inv (s : State) (coll : String) (hp : s.persistent = true) :
-    WInv 0 (s.world Dr coll) ∧ (s.world Dr coll).out = [] := by
+    WInv (base s) (s.world Dr coll) ∧ (s.world Dr coll).out = [] := by
   simp only [State.persistent, Bool.and_eq_true] at hp
-  have hb0 : ∀ i : Id, (!i.isTmp) = true → below 0 i = true := notTmp_below 0
   refine ⟨?_, rfl⟩
-  simp only [State.world, dr_source]
+  simp only [State.world, dr_source, dr_pipelineCopy, Copy.run, base]
   rw [runL_deep_eq]
-  have hc := deepTmpL_win (b := 0) (getColl coll s.colls) 0 (Nat.le_refl _)
-  refine ⟨Nat.zero_le _, hc.2, by simp [allL], ?_, all_mono hb0 _ hp.2, by simp [allLL]⟩
-  rw [allColls_eq_all]
-  have := hp.1
-  rw [← allColls_eq_all] at this ⊢
-  exact allColls_mono hb0 _ this
+  have hc := deepTmpL_win (b := (deepTmp s.pipe 0).2) (getColl coll s.colls) (deepTmp s.pipe 0).2
+    (Nat.le_refl _)
+  refine ⟨hc.1, hc.2, by simp [allL], ?_, all_mono (notTmp_below _) _ hp.2, ?_, by simp [allLL]⟩
+  · rw [allColls_eq_all]; exact hp.1
+  · exact all_mono (fun i hi => inR_below i hi) _ (deepTmp_inR s.pipe 0).2
+
+/-- **the caller's pipeline object, every pipeline**: whatever the stages are — `$out` anywhere,
+    `$lookup`, `$facet` — the object the caller passed is exactly what it was: the stages work on
+    the call's own copy of it, and every in-place write goes to an object of the call -/
+theorem aggregateStages_pipe (sem : Sem) (s : State) (coll : String) (stages : List Stage)
+    (w : World) (hp : s.persistent = true)
+    (h : aggregateStages Dr sem s coll stages = .ok w) : w.pipe = s.pipe := by
+  have h0 := world_inv s coll hp
+  exact (runStages_step sem stages _ _ w h0.1 h0.2 h).1.kept.pipe
 
 /-- **read-only, all stages**: a pipeline without `$out` leaves every collection, every index
     entry, the store's counter and the caller's pipeline object exactly as they were -/
@@ -35,8 +48,9 @@ theorem aggregateStages_readonly (sem : Sem) (s : State) (coll : String) (stages
     w.colls = s.colls ∧ w.idx = s.idx ∧ w.pipe = s.pipe ∧ w.nextSt = s.nextSt ∧
       allL Id.isTmp w.work = true := by
   have h0 := world_inv s coll hp
-  have st := runStages_step sem stages 0 _ w h0.1 h0.2 hno h
-  exact ⟨st.1.same.colls, st.1.same.idx, st.1.same.pipe, st.1.same.nextSt,
+  have st := runStages_step sem stages _ _ w h0.1 h0.2 h
+  have ss := st.2.2 hno
+  exact ⟨ss.colls, ss.idx, st.1.kept.pipe, ss.nextSt,
     allL_mono (fun i hi => inR_isTmp i hi) _ st.1.inv.work⟩
 
 /-! ### `$facet` -/
@@ -60,15 +74,16 @@ theorem All2.length_eq {α β : Type} {R : α → β → Prop} :
     collections, catalog and pipeline object of `w`; `stk` is whatever enclosing stages keep alive -/
 def BranchAlone (sem : Sem) (w : World) (input : List HV) (br : String × List Stage) (o : List HV) : Prop :=
   ∃ (n : Nat) (stk : List (List HV)) (ws' : World),
-    runStages Dr sem { colls := w.colls, idx := w.idx, pipe := w.pipe, stack := stk,
+    runStages Dr sem { colls := w.colls, idx := w.idx, pipe := w.pipe, cpipe := w.cpipe, stack := stk,
                        work := (deepTmpL input n).1, out := [], nextTmp := (deepTmpL input n).2,
                        nextSt := w.nextSt } br.2 = .ok ws' ∧ o = ws'.work
 
 theorem BranchAlone.congr {sem : Sem} {w v : World} {input : List HV} {br : String × List Stage}
     {o : List HV} (hc : v.colls = w.colls) (hi : v.idx = w.idx) (hp : v.pipe = w.pipe)
+    (hq : v.cpipe = w.cpipe)
     (hn : v.nextSt = w.nextSt) (h : BranchAlone sem v input br o) : BranchAlone sem w input br o := by
   obtain ⟨n, stk, ws', h1, h2⟩ := h
-  rw [hc, hi, hp, hn] at h1
+  rw [hc, hi, hp, hq, hn] at h1
   exact ⟨n, stk, ws', h1, h2⟩
 
 theorem runBranches_iso (sem : Sem) : ∀ (bs : List (String × List Stage)) (w w' : World)
@@ -77,7 +92,6 @@ theorem runBranches_iso (sem : Sem) : ∀ (bs : List (String × List Stage)) (w 
     All2 (BranchAlone sem w input) bs ((w'.stack.drop 1).take bs.length).reverse
   | [], w, w', input, rest, _, _, _, _, _ => by simp; exact All2.nil
   | (t, sub) :: r, w, w', input, rest, hal, ho, hstk, hno, hs => by
-    have hfull := runBranches_step sem ((t, sub) :: r) w w' input rest hal ho hstk hno hs
     simp only [noOutBranches, Bool.and_eq_true] at hno
     simp only [runBranches, hstk, dr_facetShares, Bool.not_false, Bool.true_and,
       Bool.false_eq_true, if_false] at hs
@@ -87,12 +101,13 @@ theorem runBranches_iso (sem : Sem) : ∀ (bs : List (String × List Stage)) (w 
       have hc := deepTmpL_win (b := w.nextTmp) input w.nextTmp (Nat.le_refl _)
       have h0 : WInv w.nextTmp { w with stack := input :: rest, work := (deepTmpL input w.nextTmp).1,
                                         nextTmp := (deepTmpL input w.nextTmp).2 } :=
-        ⟨hc.1, hc.2, by rw [ho]; simp [allL], hal.colls, hal.pipe, by
+        ⟨hc.1, hc.2, by rw [ho]; simp [allL], hal.colls, hal.pipe, hal.cpipe, by
           have := hal.stack; rw [hstk] at this; exact this⟩
       split at hs
       · next w1 h1 =>
-        have s1 := runStages_step sem sub w.nextTmp _ w1 h0 ho hno.1 h1
-        have hst1 : w1.stack = input :: rest := s1.1.same.stack
+        have s1 := runStages_step sem sub w.nextTmp _ w1 h0 ho h1
+        have ss1 := s1.2.2 hno.1
+        have hst1 : w1.stack = input :: rest := s1.1.kept.stack
         rw [hst1] at hs
         simp only at hs
         have hm1 : w.nextTmp ≤ w1.nextTmp := Nat.le_trans hc.1 s1.1.mono
@@ -100,17 +115,16 @@ theorem runBranches_iso (sem : Sem) : ∀ (bs : List (String × List Stage)) (w 
           have hstk0 := hal.stack
           rw [hstk] at hstk0
           simp only [allLL, Bool.and_eq_true] at hstk0
-          refine ⟨?_, ?_, ?_⟩
-          · simp only; rw [s1.1.same.colls]; exact allColls_mono (below_mono hm1) _ hal.colls
-          · simp only; rw [s1.1.same.pipe]; exact all_mono (below_mono hm1) _ hal.pipe
-          · simp only [allLL, Bool.and_eq_true]
-            exact ⟨allL_mono (below_mono hm1) _ hstk0.1,
-              allL_mono (fun i hi => inR_below i hi) _ s1.1.inv.work,
-              allLL_mono (below_mono hm1) _ hstk0.2⟩
-        have br := runBranches_step sem r { w1 with stack := input :: w1.work :: rest } w' input
-          (w1.work :: rest) hal1 s1.2 rfl hno.2 hs
+          refine ⟨s1.1.inv.colls, all_mono (below_mono hm1) _ s1.1.inv.pipe,
+            all_mono (below_mono hm1) _ s1.1.inv.cpipe, ?_⟩
+          simp only [allLL, Bool.and_eq_true]
+          exact ⟨allL_mono (below_mono hm1) _ hstk0.1,
+            allL_mono (fun i hi => inR_below i hi) _ s1.1.inv.work,
+            allLL_mono (below_mono hm1) _ hstk0.2⟩
+        have br := (runBranches_step sem r { w1 with stack := input :: w1.work :: rest } w' input
+          (w1.work :: rest) hal1 s1.2.1 rfl hs).1
         have ih := runBranches_iso sem r { w1 with stack := input :: w1.work :: rest } w' input
-          (w1.work :: rest) hal1 s1.2 rfl hno.2 hs
+          (w1.work :: rest) hal1 s1.2.1 rfl hno.2 hs
         have ⟨outs, hstk2, hlen, _⟩ := br.stack
         have e1 : (w'.stack.drop 1).take r.length = outs := by rw [hstk2, ← hlen]; simp
         have e2 : (w'.stack.drop 1).take (r.length + 1) = outs ++ [w1.work] := by
@@ -123,8 +137,8 @@ theorem runBranches_iso (sem : Sem) : ∀ (bs : List (String × List Stage)) (w 
         refine All2.cons ?_ (All2.imp (fun a b hab => ?_) ih)
         · rw [ho] at h1
           exact ⟨w.nextTmp, input :: rest, w1, h1, rfl⟩
-        · exact BranchAlone.congr (w := w) s1.1.same.colls s1.1.same.idx s1.1.same.pipe
-            s1.1.same.nextSt hab
+        · exact BranchAlone.congr (w := w) ss1.colls ss1.idx s1.1.kept.pipe s1.1.kept.cpipe
+            ss1.nextSt hab
       · cases hs
 
 /-- **`$facet` isolation**: the stage returns one document `{title_j: outs_j}` where `outs_j` is
@@ -140,13 +154,13 @@ theorem facet_isolated_stage (sem : Sem) (b : Nat) (w w' : World) (bs : List (St
   · next w2 hr =>
     cases hs
     have hal : Alive { w with stack := w.work :: w.stack } :=
-      ⟨allColls_mono (below_mono h.hb) _ h.colls, all_mono (below_mono h.hb) _ h.pipe, by
+      ⟨h.colls, all_mono (below_mono h.hb) _ h.pipe, all_mono (below_mono h.hb) _ h.cpipe, by
         simp only [allLL, Bool.and_eq_true]
         exact ⟨allL_mono (fun i hi => inR_below i hi) _ h.work, allLL_mono (below_mono h.hb) _ h.stack⟩⟩
     have iso := runBranches_iso sem bs { w with stack := w.work :: w.stack } w2 w.work w.stack
       hal ho rfl hno hr
     exact ⟨w2.nextTmp, _, rfl, All2.imp
-      (fun a b hab => BranchAlone.congr (w := w) rfl rfl rfl rfl hab) iso⟩
+      (fun a b hab => BranchAlone.congr (w := w) rfl rfl rfl rfl rfl hab) iso⟩
   · cases hs
 
 /-! ### `$sample` -/
@@ -184,7 +198,7 @@ theorem sample_stage (sem : Sem) (w w' : World) (loc : List Nat)
     (hperm : ∀ n, (sem.shuffle n).Perm (List.range n))
     (hs : runStage Dr sem w (.sample loc) = .ok w') :
     SubMultiset w'.work w.work ∧ w' = { w with work := w'.work } ∧
-      ∃ (id : Id) (kids : Kids) (n : Int), subAt loc w.pipe = some (.node id true kids) ∧
+      ∃ (id : Id) (kids : Kids) (n : Int), subAt loc w.cpipe = some (.node id true kids) ∧
         kget "size" kids = some (.atom (.int n)) ∧ w'.work.length = min n.toNat w.work.length := by
   simp only [runStage, sampleStage, dr_samplePops, Bool.false_eq_true, if_false] at hs
   split at hs
@@ -209,58 +223,6 @@ theorem sample_stage (sem : Sem) (w w' : World) (loc : List Nat)
 
 /-! ### `$out` -/
 
-theorem outInsert_pipe {b : Nat} (sem : Sem) (target : String) :
-    ∀ (fuel : Nat) (w : World) (j : Nat), allL (inR b w.nextTmp) w.work = true →
-      w.pipe.all (below b) = true → (outInsert Dr sem target w fuel j).1.pipe = w.pipe
-  | 0, w, j, _, _ => by simp [outInsert]
-  | fuel + 1, w, j, hw, hp => by
-    simp only [outInsert]
-    split
-    · rfl
-    · next doc hd =>
-      have hdoc := allL_getElem? _ _ _ hw hd
-      split
-      · next id kids =>
-        simp only [HV.all, Bool.and_eq_true] at hdoc
-        by_cases hid : (kget "_id" kids).isSome = true
-        · simp only [hid, if_true]
-          split
-          · split
-            · rfl
-            · exact outInsert_pipe sem target fuel _ (j + 1) hw hp
-          · rfl
-        · simp only [hid, Bool.false_eq_true, if_false]
-          have hnb := inR_not_below id hdoc.1
-          have hpipe : (w.mutate id (kset "_id" (.atom (.oid (1000 + w.nextSt))))).pipe = w.pipe := by
-            simp only [World.mutate]; exact mutate_noop (below b) id _ hnb _ hp
-          have hwork : allL (inR b w.nextTmp)
-              (w.mutate id (kset "_id" (.atom (.oid (1000 + w.nextSt))))).work = true := by
-            simp only [World.mutate]
-            exact mutateL_all id _ (fun ks hk => allKids_kset "_id" _ (by simp [HV.all]) ks hk) _ hw
-          split
-          · split
-            · exact hpipe
-            · rw [outInsert_pipe sem target fuel _ (j + 1) hwork (by rw [hpipe]; exact hp)]
-              exact hpipe
-          · exact hpipe
-      · rfl
-
-/-- `$out` writes into the documents it is handed and into the store, never into the caller's
-    pipeline object -/
-theorem outStage_pipe {b : Nat} (sem : Sem) (target : String) (w w' : World) (h : WInv b w)
-    (hs : outStage Dr sem target w = .ok w') : w'.pipe = w.pipe := by
-  simp only [outStage] at hs
-  split at hs
-  · next w1 he =>
-    cases hs
-    have : w' = (outStageW Dr sem target w).1 := by rw [he]
-    rw [this]
-    simp only [outStageW]
-    split
-    · exact outInsert_pipe (b := b) sem target _ w 0 h.work h.pipe
-    · exact outInsert_pipe (b := b) sem target _ _ 0 h.work h.pipe
-  · cases hs
-
 theorem runStages_append (D : Disc) (sem : Sem) : ∀ (a c : List Stage) (w : World),
     runStages D sem w (a ++ c) = (runStages D sem w a).bind (fun w1 => runStages D sem w1 c)
   | [], c, w => by simp [runStages, Except.bind]
@@ -269,25 +231,6 @@ theorem runStages_append (D : Disc) (sem : Sem) : ∀ (a c : List Stage) (w : Wo
     cases runStage D sem w s with
     | error e => simp [Except.bind]
     | ok w1 => simp only [runStages_append D sem a c w1]
-
-/-- the pipeline object after `pre ++ [$out target]` -/
-theorem aggregateStages_out_pipe (sem : Sem) (s : State) (coll target : String) (pre : List Stage)
-    (w : World) (hp : s.persistent = true) (hno : noOutStages pre = true)
-    (h : aggregateStages Dr sem s coll (pre ++ [.out target]) = .ok w) : w.pipe = s.pipe := by
-  have h0 := world_inv s coll hp
-  simp only [aggregateStages] at h
-  rw [runStages_append] at h
-  cases h1 : runStages Dr sem (s.world Dr coll) pre with
-  | error e => simp [h1, Except.bind] at h
-  | ok w1 =>
-    simp only [h1, Except.bind, runStages, runStage] at h
-    have st := runStages_step sem pre 0 _ w1 h0.1 h0.2 hno h1
-    split at h
-    · next w2 h2 =>
-      cases h
-      rw [outStage_pipe (b := 0) sem target w1 w st.1.inv h2]
-      exact st.1.same.pipe
-    · cases h
 
 /-! ### `$out`: the target holds exactly the output -/
 
@@ -436,7 +379,7 @@ theorem setOut_same (D : Disc) (h2 : D.addFieldsNested = .shallow) (w : World) (
     Same w w' ∧ w'.work = w.work := by
   simp only [setOut, h2] at hs
   split at hs
-  · cases hs; exact ⟨⟨rfl, rfl, rfl, rfl, rfl⟩, rfl⟩
+  · cases hs; exact ⟨⟨rfl, rfl, rfl, rfl, rfl, rfl⟩, rfl⟩
   · cases hs; exact ⟨Same.rfl' w, rfl⟩
 
 theorem addField_same (D : Disc) (h2 : D.addFieldsNested = .shallow) (path : List String) (e : AExpr) :
@@ -450,13 +393,14 @@ theorem addField_same (D : Disc) (h2 : D.addFieldsNested = .shallow) (path : Lis
     · split at hs
       · cases hs
       · have ih := addField_same D h2 path e fuel _ (j + 1) w' hs
-        exact ⟨⟨ih.1.colls, ih.1.idx, ih.1.pipe, ih.1.stack, ih.1.nextSt⟩, ih.2⟩
+        exact ⟨⟨ih.1.colls, ih.1.idx, ih.1.pipe, ih.1.cpipe, ih.1.stack, ih.1.nextSt⟩, ih.2⟩
       · split at hs
         · next w1 hso =>
           have h1 := setOut_same D h2 _ j path _ w1 hso
           have ih := addField_same D h2 path e fuel w1 (j + 1) w' hs
           exact ⟨⟨ih.1.colls.trans h1.1.colls, ih.1.idx.trans h1.1.idx, ih.1.pipe.trans h1.1.pipe,
-            ih.1.stack.trans h1.1.stack, ih.1.nextSt.trans h1.1.nextSt⟩, ih.2.trans h1.2⟩
+            ih.1.cpipe.trans h1.1.cpipe, ih.1.stack.trans h1.1.stack, ih.1.nextSt.trans h1.1.nextSt⟩,
+            ih.2.trans h1.2⟩
         · cases hs
 
 theorem addFieldsAll_same (D : Disc) (h2 : D.addFieldsNested = .shallow) :
@@ -480,7 +424,7 @@ theorem runStage_pure_same (D : Disc) (h1 : D.samplePops = false) (h2 : D.addFie
   | .select op opts, w, w', _, hs => by
     simp only [runStage] at hs
     split at hs
-    · cases hs; exact ⟨⟨rfl, rfl, rfl, rfl, rfl⟩, id⟩
+    · cases hs; exact ⟨⟨rfl, rfl, rfl, rfl, rfl, rfl⟩, id⟩
     · cases hs
   | .sample loc, w, w', _, hs => by
     simp only [runStage, sampleStage, h1, Bool.false_eq_true, if_false] at hs
@@ -489,7 +433,7 @@ theorem runStage_pure_same (D : Disc) (h1 : D.samplePops = false) (h2 : D.addFie
       · split at hs
         · split at hs
           · cases hs
-          · cases hs; exact ⟨⟨rfl, rfl, rfl, rfl, rfl⟩, id⟩
+          · cases hs; exact ⟨⟨rfl, rfl, rfl, rfl, rfl, rfl⟩, id⟩
         · cases hs
       · cases hs
       · cases hs
@@ -503,12 +447,12 @@ theorem runStage_pure_same (D : Disc) (h1 : D.samplePops = false) (h2 : D.addFie
       · next w1 ha =>
         cases hs
         have s1 := addFieldsAll_same D h2 fields _ w1 ha
-        exact ⟨⟨s1.1.colls, s1.1.idx, s1.1.pipe, s1.1.stack, s1.1.nextSt⟩, fun _ => rfl⟩
+        exact ⟨⟨s1.1.colls, s1.1.idx, s1.1.pipe, s1.1.cpipe, s1.1.stack, s1.1.nextSt⟩, fun _ => rfl⟩
       · cases hs
   | .project noId incl computed, w, w', _, hs => by
     simp only [runStage] at hs
     split at hs
-    · cases hs; exact ⟨⟨rfl, rfl, rfl, rfl, rfl⟩, id⟩
+    · cases hs; exact ⟨⟨rfl, rfl, rfl, rfl, rfl, rfl⟩, id⟩
     · cases hs
   | .unwind key preserve idx, w, w', _, hs => by
     simp only [runStage] at hs
@@ -518,17 +462,17 @@ theorem runStage_pure_same (D : Disc) (h1 : D.samplePops = false) (h2 : D.addFie
       · cases hs
       · split at hs
         · cases hs
-        · cases hs; exact ⟨⟨rfl, rfl, rfl, rfl, rfl⟩, id⟩
+        · cases hs; exact ⟨⟨rfl, rfl, rfl, rfl, rfl, rfl⟩, id⟩
   | .replaceRoot e, w, w', _, hs => by
     simp only [runStage] at hs
     split at hs
-    · cases hs; exact ⟨⟨rfl, rfl, rfl, rfl, rfl⟩, id⟩
+    · cases hs; exact ⟨⟨rfl, rfl, rfl, rfl, rfl, rfl⟩, id⟩
     · cases hs
   | .count name, w, w', _, hs => by
     simp only [runStage] at hs
     split at hs
-    · cases hs; exact ⟨⟨rfl, rfl, rfl, rfl, rfl⟩, id⟩
-    · cases hs; exact ⟨⟨rfl, rfl, rfl, rfl, rfl⟩, id⟩
+    · cases hs; exact ⟨⟨rfl, rfl, rfl, rfl, rfl, rfl⟩, id⟩
+    · cases hs; exact ⟨⟨rfl, rfl, rfl, rfl, rfl, rfl⟩, id⟩
   | .lookup .., _, _, hp, _ => by simp [Stage.pure] at hp
   | .facet .., _, _, hp, _ => by simp [Stage.pure] at hp
   | .out .., _, _, hp, _ => by simp [Stage.pure] at hp
@@ -555,15 +499,16 @@ theorem runStages_pure_same (D : Disc) (h1 : D.samplePops = false) (h2 : D.addFi
 def BranchShared (D : Disc) (sem : Sem) (w : World) (input : List HV) (br : String × List Stage)
     (o : List HV) : Prop :=
   ∃ (n : Nat) (stk : List (List HV)) (ws' : World),
-    runStages D sem { colls := w.colls, idx := w.idx, pipe := w.pipe, stack := stk, work := input,
-                      out := [], nextTmp := n, nextSt := w.nextSt } br.2 = .ok ws' ∧ o = ws'.work
+    runStages D sem { colls := w.colls, idx := w.idx, pipe := w.pipe, cpipe := w.cpipe, stack := stk,
+                      work := input, out := [], nextTmp := n, nextSt := w.nextSt } br.2 = .ok ws' ∧
+      o = ws'.work
 
 theorem BranchShared.congr {D : Disc} {sem : Sem} {w v : World} {input : List HV}
     {br : String × List Stage} {o : List HV} (hc : v.colls = w.colls) (hi : v.idx = w.idx)
-    (hp : v.pipe = w.pipe) (hn : v.nextSt = w.nextSt) (h : BranchShared D sem v input br o) :
-    BranchShared D sem w input br o := by
+    (hp : v.pipe = w.pipe) (hq : v.cpipe = w.cpipe) (hn : v.nextSt = w.nextSt)
+    (h : BranchShared D sem v input br o) : BranchShared D sem w input br o := by
   obtain ⟨n, stk, ws', h1, h2⟩ := h
-  rw [hc, hi, hp, hn] at h1
+  rw [hc, hi, hp, hq, hn] at h1
   exact ⟨n, stk, ws', h1, h2⟩
 
 /-- under a discipline that hands ONE list to all sub-pipelines, sub-pipelines of non-writing
@@ -573,12 +518,13 @@ theorem runBranches_shared_iso (D : Disc) (h1 : D.samplePops = false)
     ∀ (bs : List (String × List Stage)) (w w' : World) (input : List HV) (rest : List (List HV)),
       w.out = [] → w.stack = input :: rest → pureBranches bs = true →
       runBranches D sem w bs = .ok w' →
-      (w'.colls = w.colls ∧ w'.idx = w.idx ∧ w'.pipe = w.pipe ∧ w'.nextSt = w.nextSt ∧ w'.out = []) ∧
+      (w'.colls = w.colls ∧ w'.idx = w.idx ∧ w'.pipe = w.pipe ∧ w'.cpipe = w.cpipe ∧
+        w'.nextSt = w.nextSt ∧ w'.out = []) ∧
       ∃ outs : List (List HV), w'.stack = input :: (outs ++ rest) ∧ outs.length = bs.length ∧
         All2 (BranchShared D sem w input) bs outs.reverse
   | [], w, w', input, rest, ho, hstk, _, hs => by
     simp only [runBranches] at hs; cases hs
-    exact ⟨⟨rfl, rfl, rfl, rfl, ho⟩, [], by simpa using hstk, rfl, All2.nil⟩
+    exact ⟨⟨rfl, rfl, rfl, rfl, rfl, ho⟩, [], by simpa using hstk, rfl, All2.nil⟩
   | (t, sub) :: r, w, w', input, rest, ho, hstk, hp, hs => by
     simp only [pureBranches, List.all_cons, Bool.and_eq_true] at hp
     simp only [runBranches, hstk, h3, Bool.not_true, Bool.false_and, Bool.false_eq_true, if_false,
@@ -591,15 +537,16 @@ theorem runBranches_shared_iso (D : Disc) (h1 : D.samplePops = false)
       simp only at hs
       have ih := runBranches_shared_iso D h1 h2 h3 sem r { w1 with stack := input :: w1.work :: rest } w'
         input (w1.work :: rest) (s1.2 ho) rfl (by simpa [pureBranches] using hp.2) hs
-      obtain ⟨⟨ic, ii, ip, in_, io⟩, outs, hstk2, hlen, hall⟩ := ih
-      refine ⟨⟨ic.trans s1.1.colls, ii.trans s1.1.idx, ip.trans s1.1.pipe, in_.trans s1.1.nextSt, io⟩,
+      obtain ⟨⟨ic, ii, ip, iq, in_, io⟩, outs, hstk2, hlen, hall⟩ := ih
+      refine ⟨⟨ic.trans s1.1.colls, ii.trans s1.1.idx, ip.trans s1.1.pipe, iq.trans s1.1.cpipe,
+        in_.trans s1.1.nextSt, io⟩,
         outs ++ [w1.work], by rw [hstk2]; simp, by simp [hlen], ?_⟩
       rw [List.reverse_append]
       simp only [List.reverse_cons, List.reverse_nil, List.nil_append, List.singleton_append]
       refine All2.cons ?_ (All2.imp (fun a b hab => ?_) hall)
       · rw [ho] at hw1
         exact ⟨w.nextTmp, input :: rest, w1, hw1, rfl⟩
-      · exact BranchShared.congr (w := w) s1.1.colls s1.1.idx s1.1.pipe s1.1.nextSt hab
+      · exact BranchShared.congr (w := w) s1.1.colls s1.1.idx s1.1.pipe s1.1.cpipe s1.1.nextSt hab
     · cases hs
 
 /-- **`$facet` isolation by the stages' own discipline**: when every sub-pipeline consists of
@@ -618,14 +565,14 @@ theorem facet_shared_isolated_stage (D : Disc) (h1 : D.samplePops = false)
     cases hs
     have iso := runBranches_shared_iso D h1 h2 h3 sem bs { w with stack := w.work :: w.stack } w2
       w.work w.stack ho rfl hp hr
-    obtain ⟨⟨ic, ii, ip, in_, _⟩, outs, hstk, hlen, hall⟩ := iso
+    obtain ⟨⟨ic, ii, ip, iq, in_, _⟩, outs, hstk, hlen, hall⟩ := iso
     have hdrop : w2.stack.drop (1 + bs.length) = w.stack := by
       rw [hstk, ← hlen, Nat.add_comm]; simp
     have htake : (w2.stack.drop 1).take bs.length = outs := by
       rw [hstk, ← hlen]; simp
-    refine ⟨⟨ic, ii, ip, hdrop, in_⟩, w2.nextTmp, _, rfl, ?_⟩
+    refine ⟨⟨ic, ii, ip, iq, hdrop, in_⟩, w2.nextTmp, _, rfl, ?_⟩
     rw [htake]
-    exact All2.imp (fun a b hab => BranchShared.congr (w := w) rfl rfl rfl rfl hab) hall
+    exact All2.imp (fun a b hab => BranchShared.congr (w := w) rfl rfl rfl rfl rfl hab) hall
   · cases hs
 
 end MongoModel.Proofs.C16
